@@ -163,6 +163,7 @@ func (w *World) VerifyFunc(fn *ssa.Function, mode *Mode, prop string) (x *X, err
 			rnames = resultNames(fn.Signature)
 		}
 		post.bindResults(rnames, vals)
+		x.postEnv = post
 		for _, en := range ct.Ensures {
 			if !x.active(en) || ct.Trusted {
 				continue
